@@ -232,6 +232,7 @@ class Program:
             self.sources[rel] = src
         self.inline_findings: list = []
         self.renamed: dict = {}
+        self._known_pairs: set = set()
         self.inline_log = self._inline_unreviewed_helpers()
         for rel, tree in self.modules.items():
             self._index_module(rel, tree)
@@ -269,6 +270,7 @@ class Program:
                     known.add((rel, k))  # a reviewed function that moved to another module keeps its role
                 else:
                     unknown = True
+        self._known_pairs = known
         if not unknown:
             return rlog
         log, self.inline_findings = inline_unknown_helpers(self.modules, known)
@@ -385,6 +387,23 @@ class Program:
                         walk(cs.body)
 
         walk(f.node.body)
+
+    def reviewed_key(self, key: str) -> str:
+        """the key under which reviewed tables know the function `key`: its former key when it was renamed/moved; for a
+        function without a reviewed role (a new helper that could not be dissolved into its callers) the key of its caller"""
+        for old, (_rel, new) in self.renamed.items():
+            if new == key:
+                return old
+        f = self.funcs.get(key)
+        if f is None:
+            return key
+        if (f.module, key) in getattr(self, "_known_pairs", set()) or not hasattr(self, "_known_pairs"):
+            return key
+        callers = sorted(g.key for g in self.funcs.values() if g is not f and any(
+            isinstance(c, ast.Call) and ((isinstance(c.func, ast.Name) and c.func.id == f.name) or (isinstance(c.func, ast.Attribute) and c.func.attr == f.name))
+            for c in walk_no_nested(g.node)))
+        callers = [c for c in callers if (self.funcs[c].module, c) in self._known_pairs]
+        return callers[0] if len(set(callers)) == 1 else key
 
     # ------------------------------------------------------------------ queries
     def func(self, key: str) -> Func:
